@@ -52,3 +52,53 @@ def histogram(out, tag):
 
 def unhex(h):
     return b"" if h == "-" else bytes.fromhex(h)
+
+
+def replay_ops(path):
+    """Operation lines of a replay / corpus file: `op: <line>` entries of a written replay, or the
+    raw operation lines of an .ops file."""
+    ops = []
+    for l in open(path).read().splitlines():
+        l = l.strip()
+        if l.startswith("op: "):
+            ops.append(l[4:])
+        elif l and not l.startswith("#") and not l.startswith("impl:") and not l.startswith("model:") \
+                and not l.startswith("(") and re.match(r"^[a-z0-9]+ ", l) and ":" not in l.split()[0]:
+            ops.append(l)
+    return ops
+
+
+def replay(ctx, binp, plans, oracle):
+    """--replay: run the operation lines of ctx.replay_in on the real code (through the harness's corpus
+    hook) and through the model, print both answers side by side, evaluate the oracle.
+    plans: list of (test, stream, accepts(op) -> bool)."""
+    ops = replay_ops(ctx.replay_in)
+    print("replaying %d operation line(s) of %s against %s" % (len(ops), ctx.replay_in, os.environ.get("VERIF_REPO", "/repo")))
+    done = 0
+    for test, stream, accepts in plans:
+        mine = [o for o in ops if accepts(o)]
+        if not mine:
+            continue
+        f = os.path.join(ctx.work, "replay_%s.ops" % stream)
+        with open(f, "w") as fh:
+            fh.write("\n".join(mine) + "\n")
+        ok, rops, impl, out = run_corr(ctx, binp, test, stream, 0, {"VERIF_CORPUS": f}, timeout=600)
+        for l in out.splitlines():
+            if l.startswith("ORACLE-FAIL"):
+                print("  " + l)
+                ctx.violation("replay-oracle", l, "replay of %s\n%s\n" % (ctx.replay_in, l))
+        model = model_of(ctx, stream) if ok else []
+        for k, o in enumerate(rops):
+            i = impl[k] if k < len(impl) else "<missing>"
+            m = model[k] if k < len(model) else "<missing>"
+            bad = oracle(o, i)
+            print("op:    %s\n  impl:  %s\n  model: %s\n  %s%s" % (
+                o[:400], i[:400], m[:400], "AGREE" if i == m else "DIFFER",
+                ("; PROPERTY FAILS: " + bad) if bad else ""))
+            ctx.count_case(o)
+            done += 1
+            if bad:
+                ctx.violation("replay", bad, "op: %s\nimpl: %s\nmodel: %s\n" % (o, i, m))
+    if done == 0:
+        print("no replayable operation line found (channel histories and end-to-end failures are replayed by "
+              "re-running the check with the VERIF_SEED named in the replay file)")
